@@ -86,13 +86,18 @@ def convCell (src dst : ETy) : String :=
      | .error _ => "panic"
      | .ok t => showETy t)
 
+/-- the optional 4th field (`D`: every candidate is also defined, in reverse order) does not change the
+    candidate set, so the model ignores it -/
+def handleResolve (cs az : String) : String :=
+  match sequenceOpt ((if cs.isEmpty then [] else cs.splitOn ";").map parseCand),
+        sequenceOpt ((if az.isEmpty then [] else az.splitOn ",").map parseETy) with
+  | some cands, some a => showOutcome (resolve cands a)
+  | _, _ => "bad-request"
+
 def handle (op : String) (args : List String) : String :=
   match op, args with
-  | "C16.resolve", [cs, az] =>
-    match sequenceOpt ((if cs.isEmpty then [] else cs.splitOn ";").map parseCand),
-          sequenceOpt ((if az.isEmpty then [] else az.splitOn ",").map parseETy) with
-    | some cands, some a => showOutcome (resolve cands a)
-    | _, _ => "bad-request"
+  | "C16.resolve", [cs, az, _] => handleResolve cs az
+  | "C16.resolve", [cs, az] => handleResolve cs az
   | "C16.conv", [src, dsts] =>
     match parseETy src, sequenceOpt ((dsts.splitOn " ").map parseETy) with
     | some s, some ds => " ".intercalate (ds.map (convCell s))
